@@ -376,3 +376,23 @@ Lemma v_eqb_release_intro : forall v o,
 Proof.
   intros v o Ho Hv H1 H2 H3. unfold v_eqb. rewrite Ho, Hv, H1, H2, H3, !N.eqb_refl. reflexivity.
 Qed.
+
+(* the version string ReadHeader sees in any stream of at least 32 bytes *)
+Lemma read_header_long : forall b, (32 <= length b)%nat ->
+  exists h, read_header b = ROk (h, skipn 32 b) /\ h_version h = strip_nul (firstn 16 b).
+Proof.
+  intros b H. unfold read_header.
+  replace (read_full 32 b) with (read_full 32 (firstn 32 b ++ skipn 32 b)) by (rewrite firstn_skipn; reflexivity).
+  rewrite read_full_app by (unfold blen; rewrite firstn_length; lia).
+  eexists. split; [reflexivity|]. cbn [h_version].
+  rewrite firstn_firstn. reflexivity.
+Qed.
+
+Theorem unmarshal_incompatible_field : forall compat cur b,
+  (32 <= length b)%nat ->
+  is_compatible (strip_nul (firstn 16 b)) compat = Some false ->
+  unmarshal compat cur b = OIncompatible.
+Proof.
+  intros compat cur b H Hc. destruct (read_header_long b H) as [h [E V]].
+  eapply unmarshal_incompatible; [exact E|]. rewrite V. exact Hc.
+Qed.
